@@ -134,4 +134,28 @@ PROPS = {
             sub("db_gaps", "c07_db", 1500, 50000),
             sub("db_hazard", "c07_db", 1000, 20000),
         ]),
+    "C18": dict(
+        level="exploration",
+        rule=("rapidcheck-generated samples (n 5-2000: lognormal, gamma, bimodal, with ties, NA, weights, selections) and transforms fitted on them: "
+              "AnamHermite (orders 2-60, through arrays, a Db or CalcAnamTransform, refits), AnamEmpirical (normal score, Gaussian and lognormal dilution), "
+              "PCA / MAF (1-5 correlated variables), VH::normalScore, Rotation (1-3D), Hermite polynomials; oracle = inverse(forward(x)) = x inside the "
+              "validity interval the transform reports, within a tolerance derived from the method (bisection stop rules, quantile approximation error, "
+              "interpolation tables, conditioning), monotonicity at the method's resolution, factor moments, orthonormality by an 80-point Gauss-Hermite "
+              "rule built in the harness; non-trivial = ties or NA present or order >= 20 (anamorphoses, normal score: or weights), nvar >= 3 or NA or a "
+              "selection (PCA/MAF), an effective rotation in >= 2-D, order >= 20 or r < 1 or s > 0 (Hermite); distinct = hash of the case text"),
+        assumptions=["Hermite convention H1 = -y, Hn = (-1)^n He_n / sqrt(n!) (as coded)",
+                     "validity interval of AnamHermite = practical interval intersected with the absolute one, tested one 0.1 grid step inside",
+                     "unit variance of factors with the n-1 normalisation the library uses",
+                     "normal-score frequency = cumulated weight / (W(n+1)/n); order of ties by position is not asserted",
+                     "rotation matrix storage convention (R or Rt) left open; fit quality of an anamorphosis is not part of the claim",
+                     "constant data: the fit must refuse (no transform exists)"],
+        subs=[
+            sub("anamh", "c18_transforms", 3000, 100000),
+            sub("anamh_degenerate", "c18_transforms", 300, 3000, qw=1, tw=1),
+            sub("aname", "c18_transforms", 3000, 100000),
+            sub("pca", "c18_transforms", 3000, 100000),
+            sub("nscore", "c18_transforms", 3000, 100000),
+            sub("rotation", "c18_transforms", 3000, 50000),
+            sub("hermite", "c18_transforms", 3000, 50000),
+        ]),
 }
